@@ -800,7 +800,44 @@ func driveHostile(c *DriverCtx) error {
 		return ev.Post, nil
 	}
 	c.G.Small = true
+	longDone := 0
 	for _, t := range c.types() {
+		// a long legitimate text goes through the decoder first (pooled scratch, caches ... are warm and large),
+		// then prefixes that claim no more than that, with almost nothing behind them
+		for _, f := range S.Types[t].Fields {
+			if f.Kind != "str" || f.PW < 4 || longDone >= 3 {
+				continue
+			}
+			longDone++
+			v := c.G.Value(t, Canon)
+			v[f.Name] = make([]int, 300000)
+			w, err := enc(t, v)
+			if err != nil {
+				return err
+			}
+			ops := []Op{{Op: "load", B: "big", Bytes: w}, {Op: "decode", B: "big", O: "r0", T: t, Fresh: true, Meter: true, Tag: "long-legitimate-text"}}
+			small := c.G.Value(t, Canon)
+			small[f.Name] = []int{65}
+			w2, err := enc(t, small)
+			if err != nil {
+				return err
+			}
+			if sl := SlotMap(t, small, w2); sl != nil {
+				for p := 0; p+4 <= len(w2); p++ {
+					if sl[p] == 'p' && (p == 0 || sl[p-1] != 'p') {
+						for k, claim := range []int{262144, 100000, 299999} {
+							x := append([]int{}, w2[:p]...)
+							x = append(x, (claim>>24)&255, (claim>>16)&255, (claim>>8)&255, claim&255, 1, 2, 3)
+							b := fmt.Sprintf("h%d_%d", p, k)
+							ops = append(ops, Op{Op: "load", B: b, Bytes: x}, Op{Op: "decode", B: b, O: "r", T: t, Fresh: true, Meter: true, Tag: "claim-below-earlier-text"})
+						}
+					}
+				}
+			}
+			if err := c.Run(ops); err != nil {
+				return err
+			}
+		}
 		nemit := 0
 		emit := func(w []int, tag string) error {
 			nemit++
@@ -832,6 +869,28 @@ func driveHostile(c *DriverCtx) error {
 					q := p
 					for q < len(w) && slots[q] == 'p' {
 						q++
+					}
+					// counts at which count x element-size wraps around 2^16 / 2^32 (a bound computed in the prefix type)
+					if q-p == 2 {
+						le := S.Protocols[S.Types[t].Proto].Endian == "LE"
+						for _, es := range []int{2, 3, 4, 8, 10, 12, 16} {
+							for k := 1; k <= 2; k++ {
+								cnt := (k*65536 + es - 1) / es
+								if cnt > 65535 {
+									continue
+								}
+								x := append([]int{}, w[:p]...)
+								if le {
+									x = append(x, cnt&255, cnt>>8)
+								} else {
+									x = append(x, cnt>>8, cnt&255)
+								}
+								x = append(x, 1, 2, 3, 4, 5, 6, 7, 8)
+								if err := emit(x, "count-wrap-point"); err != nil {
+									return err
+								}
+							}
+						}
 					}
 					for variant := 0; variant < 3; variant++ {
 						x := append([]int{}, w...)
@@ -1068,9 +1127,11 @@ func driveBigFrames(c *DriverCtx) error {
 				continue
 			}
 			for i := 0; i < c.N; i++ {
-				c.G.Big = []int{40, 200, 600}[i%3]
+				c.G.Big = []int{40, 200, 600, 1200}[i%4]
+				c.G.AllOnes = i%2 == 1 // uninterrupted runs of 0xFF, thousands of bytes long
 				body := c.G.Value(e.Type, Canon)
 				c.G.Big = 0
+				c.G.AllOnes = false
 				v := c.G.Value(ft, Canon)
 				v[tab.KeyField] = e.Key
 				v[bf.Name] = body
@@ -1081,7 +1142,8 @@ func driveBigFrames(c *DriverCtx) error {
 				case 2: // a recycled, roomy buffer
 					ops = append(ops, Op{Op: "write", B: "b", Bytes: make([]int, 20000)}, Op{Op: "next", B: "b", K: 20000})
 				}
-				ops = append(ops, Op{Op: "encode", B: "b", O: "m", Tag: "big-frame"}, Op{Op: "encode", B: "b", O: "m", Tag: "again"})
+				ops = append(ops, Op{Op: "encode", B: "b", O: "m", Tag: "big-frame"}, Op{Op: "encode", B: "b", O: "m", Tag: "again"},
+					Op{Op: "decode", B: "b", O: "r", T: ft, Fresh: true}, Op{Op: "encode", B: "b2", O: "r", Tag: "reencode"})
 				if err := c.Run(ops); err != nil {
 					return err
 				}
